@@ -11,7 +11,7 @@ from . import c03 as A
 ID = 'C08'
 TITLE = 'timeseries operators equal the pointwise operation on aligned operands'
 LEAN_FILES = ['Basic', 'TSBasic', 'Fill', 'FillDriver', 'Align', 'AlignDriver', 'Ops', 'OpsF', 'OpsX', 'OpsFX', 'OpsDriver', 'FillLemmas', 'AlignLemmas', 'OpsLemmas',
-              'OpsFLemmas', 'OpsXLemmas', 'OpsFXLemmas', 'C08']
+              'OpsFLemmas', 'OpsXLemmas', 'OpsFXLemmas', 'OpsFoldLemmas', 'OpsMixedLemmas', 'OpsFCellLemmas', 'C08']
 RULE = ('distinct protocol lines (operator / aggregate, operands, index policy, fill method) on which the implementation returned a '
         'value and at least two Series / DataFrame operands are involved')
 TRUSTED = ['correspondence harness (pv.engine, pv.proto, pv.props._w5ts) and generators of pv.props.c08',
@@ -32,7 +32,8 @@ ASSUMPTIONS = ['pandas arithmetic of two Series on one index is pointwise with N
                'the CLAUSE (left fold of the binary operator over as_list(a) + as_list(b), for all four operators) is checked on redx lines against binary calls of the implementation: '
                'sub_ / div_ fail it for a list on the left (known finding C08-A3, theorems sub/div_list_left_not_left_fold) and agree for a list on the right by value '
                '(sub_div_right_list_left_fold). sub_ / div_ / pow_ have no default b: a list alone (list-none) is generated for add_ / mul_ only; under columns = "oj" the neutral element '
-               'is applied per step of the fold (oj_neutral_per_step)']
+               'is applied per step of the fold (oj_neutral_per_step)',
+               "COLUMN LABELS (round k4, review v4 2.1 / 2.2): names are strings in the model and single letters in the generators. Tuple labels (MultiIndex columns) are NOT modelled / generated: with exactly two operands presync's column loop hands a tuple-valued `column` keyword out member by member (loops._item_by_i) - add_(fa, fb) raises, columns='oj' answers a wrong Series silently; labels that cannot be ordered with one another (['a', 1] vs [1, 'b'], None) raise TypeError in sorted(columns) when the headers differ. 'arbitrary column sets' is read as sets of mutually orderable non-tuple labels"]
 S = 4
 nan = float('nan')
 VALS = [0.0, 0.0, 1.0, -1.0, 2.0, 0.5, -0.25, 3.0, 1.5]
